@@ -462,7 +462,7 @@ Proof.
   - (* singular *)
     pose proof (write_field_primary_ty env t w Hwf) as Hprim.
     assert (Hw' : (if opt && (req || is_primary_ty t) then Err "cannot be both required and optional"
-                   else Ok (FO name (idx + 1)%N (fw_kind w) false opt (opt || is_msg_kind (fw_kind w))
+                   else Ok (FO name (Strcase.to_snake name) (idx + 1)%N (fw_kind w) false opt (opt || is_msg_kind (fw_kind w))
                               (if req || is_primary_ty t then set_required (fw_val w) else fw_val w)
                               (fw_ext w) (fw_list w) (fw_key w) desc)) = Ok o).
     { rewrite <- Hprim. destruct (fw_key w); exact Hw. }
@@ -488,7 +488,7 @@ Proof.
     apply obind_ok in Hwf as [wi [Hwt Hwa]]. inversion Hwa; subst w; clear Hwa.
     pose proof (write_field_primary_ty env t wi Hwt) as Hprim.
     cbn [wrap_array fw_key fw_kind fw_val fw_ext fw_list andb] in Hw.
-    assert (Hw' : Ok (FO name (idx + 1)%N (fw_kind wi) true false false
+    assert (Hw' : Ok (FO name (Strcase.to_snake name) (idx + 1)%N (fw_kind wi) true false false
                          (if req || is_primary_ty t then set_required (fw_val (wrap_array r sf wi)) else fw_val (wrap_array r sf wi))
                          (Some (XArray sf)) (fw_list wi) (fw_key wi) desc) = Ok o).
     { rewrite <- Hprim. destruct (fw_key wi); exact Hw. }
@@ -543,7 +543,7 @@ Proof.
   - (* singular *)
     pose proof (write_field_primary_ty env t w Hwf) as Hprim.
     assert (Hw' : (if opt && (req || is_primary_ty t) then Err "cannot be both required and optional"
-                   else Ok (FO name (idx + 1)%N (fw_kind w) false opt (opt || is_msg_kind (fw_kind w))
+                   else Ok (FO name (Strcase.to_snake name) (idx + 1)%N (fw_kind w) false opt (opt || is_msg_kind (fw_kind w))
                               (if req || is_primary_ty t then set_required (fw_val w) else fw_val w)
                               (fw_ext w) (fw_list w) (fw_key w) desc)) = Ok o).
     { rewrite <- Hprim. destruct (fw_key w); exact Hw. }
@@ -566,7 +566,7 @@ Proof.
     pose proof (write_field_primary_ty env t wi Hwt) as Hprim.
     cbn [wrap_array fw_key fw_kind fw_val fw_ext fw_list] in Hw.
     assert (Hw' : (if opt && (req || is_primary_ty t) then Err "cannot be both required and optional"
-                   else Ok (FO name (idx + 1)%N (fw_kind wi) true false false
+                   else Ok (FO name (Strcase.to_snake name) (idx + 1)%N (fw_kind wi) true false false
                          (if req || is_primary_ty t then set_required (fw_val (wrap_array r sf wi)) else fw_val (wrap_array r sf wi))
                          (Some (XArray sf)) (fw_list wi) (fw_key wi) desc)) = Ok o).
     { rewrite <- Hprim. destruct (fw_key wi); exact Hw. }
